@@ -6,8 +6,14 @@ Trace == ndJsonDeserialize(IOEnv.TRACE_FILE)
 Ok(b, name) == IF b THEN "ok" ELSE name
 FirstBad(seq) == IF \E i \in DOMAIN seq : seq[i] # "ok"
                  THEN seq[CHOOSE i \in DOMAIN seq : seq[i] # "ok" /\ \A j \in 1..(i - 1) : seq[j] = "ok"] ELSE "ok"
-(* ["path", kind, steps = <<action, status, contentSame, guidSame, equalToOriginal>>...]
-   status: "ok" | exception class name.  contentSame / guidSame compare with the state BEFORE the step. *)
+(* ["path", kind, steps = <<action, status, contentSame, guidSame, equalToOriginal(, deviation)>>...]
+   status: "ok" | exception class name.  contentSame / guidSame compare with the state BEFORE the step.
+   Named deviation "agg-guid-from-other-chunk" (keyed known finding, soft: it never masks a later clause of the same
+   route): a Rebuild of a query-result collection on a sequence chunk recomputes the identifiers of its genes /
+   feature collections / variant collections from their location relative to THIS chunk, while the query had handed
+   them on with the identifiers computed on the source collection's chunk; the harness attaches the tag only when
+   nothing but aggregate-level identifiers differ and each differing one is literally an identifier of the source. *)
+Deviates(st) == Len(st) >= 6 /\ st[1] = "Rebuild" /\ st[6] = "agg-guid-from-other-chunk"
 RECURSIVE Walk(_, _, _)
 Walk(steps, k, f) ==
   IF k > Len(steps) THEN "ok"
@@ -17,6 +23,9 @@ Walk(steps, k, f) ==
        ELSE IF st[2] # "ok" THEN a \o ":fails"
        ELSE IF a = "Perturb" THEN (IF st[4] THEN "perturb:identifier-unchanged" ELSE Walk(steps, k + 1, Edges[a][2]))
        ELSE IF ~st[3] THEN a \o ":content-changed"
+       ELSE IF ~st[4] /\ Deviates(st)
+            THEN (LET rest == Walk(steps, k + 1, Edges[a][2]) IN
+                  IF rest = "ok" THEN "Rebuild:aggregate-identifier-inherited-from-other-chunk" ELSE rest)
        ELSE IF ~st[4] THEN a \o ":identifier-changed"
        ELSE IF Edges[a][2] = "OBJ" /\ ~st[5] THEN a \o ":object-not-equal"
        ELSE Walk(steps, k + 1, Edges[a][2])
